@@ -200,26 +200,61 @@ def run_case(case):
         nfire = r.choice([1, 1, 2, 5, -1])
         ref_arg = rx["label"] if (rx.get("label") and r.random() < 0.5) else ridx
         try:
+            import strengths as st
             before = np.array(system.state.value, dtype=float).copy()
-            new = system.apply_reaction(ref_arg, position=pos, n=nfire)
-            after = np.array(new.value, dtype=float)
+            kw, flags, variant = {}, list(chst), []
+            sys_q = si.sys_of(system.state.units.sys)[2]
+            base_molecules = before * float(si.QUANTITY[sys_q])
+            if r.random() < 0.5:
+                # documented option: a custom chemostat map REPLACES the one of the system for this call
+                mode = r.choice(["zeros", "ones", "random", "random", "complement"])
+                flags = ([0] * (S * n) if mode == "zeros" else [1] * (S * n) if mode == "ones" else
+                         [1 - int(bool(c_)) for c_ in chst] if mode == "complement" else [int(r.random() < 0.4) for _ in range(S * n)])
+                form = r.choice(["list", "tuple", "int array", "bool array"])
+                kw["chemostats"] = (list(flags) if form == "list" else tuple(flags) if form == "tuple" else
+                                    np.array(flags, dtype=int) if form == "int array" else np.array(flags, dtype=bool))
+                variant.append("custom chemostats (%s, %s)" % (mode, form))
+                cnt("apply_reaction_custom_chemostats")
+            if r.random() < 0.4:
+                # documented option: a custom state (UnitArray in units of its own, or a bare array in the system state's units)
+                custom = [float(r.randint(0, 50)) for _ in range(S * n)]
+                base_molecules = np.array(custom)
+                if r.random() < 0.5:
+                    qu = r.choice(["molecule", "mol", "nmol", "µmol"])
+                    kw["state"] = st.UnitArray([c_ / float(si.QUANTITY[qu]) for c_ in custom], qu)
+                else:
+                    kw["state"] = [c_ / float(si.QUANTITY[sys_q]) for c_ in custom]
+                variant.append("custom state")
+                cnt("apply_reaction_custom_state")
+            upd = r.random() < 0.3
+            if upd:
+                kw["update"] = True
+                variant.append("update=True")
+            new = system.apply_reaction(ref_arg, position=pos, n=nfire, **kw)
             qscale = float(si.QUANTITY[si.sys_of(new.units.sys)[2]])
-            if np.array(system.state.value, dtype=float).tobytes() != before.tobytes():
-                bad.append({"what": "apply_reaction(update=False) modified the system state", **ctx})
+            after_molecules = np.array(new.value, dtype=float) * qscale
+            now = np.array(system.state.value, dtype=float)
+            if not upd and now.tobytes() != before.tobytes():
+                bad.append({"what": "apply_reaction(update=False) modified the system state", "variant": variant, **ctx})
+            if upd:
+                now_m = now * float(si.QUANTITY[si.sys_of(system.state.units.sys)[2]])
+                if not np.allclose(now_m, after_molecules, rtol=1e-9, atol=1e-9):
+                    bad.append({"what": "apply_reaction(update=True): the system state is not the returned state", "variant": variant, **ctx})
+                system.state = st.UnitArray(before, system.state.units)
             for k in range(S * n):
                 s_, i_ = k // n, k % n
                 cnt("apply_reaction_entries")
                 nu = rx["prod"].get(labels[s_], 0) - rx["sub"].get(labels[s_], 0)
-                want_change = nfire * nu if (i_ == pos and not chst[k]) else 0
-                got_change = (after[k] - before[k]) * qscale
-                if want_change == 0:
-                    okk = after[k].tobytes() == before[k].tobytes()
-                else:
-                    okk = abs(got_change - want_change) <= 1e-9 * (abs(before[k] * qscale) + abs(want_change))
+                want_change = nfire * nu if (i_ == pos and not flags[k]) else 0
+                got_change = after_molecules[k] - base_molecules[k]
+                okk = abs(got_change - want_change) <= 1e-9 * (abs(base_molecules[k]) + abs(want_change))
+                if want_change == 0 and not kw:
+                    okk = np.array(new.value, dtype=float)[k].tobytes() == before[k].tobytes()
                 if not okk:
-                    bad.append({"what": "apply_reaction: flagged entries must be skipped, unflagged moved by n*nu",
-                                "entry": k, "species": s_, "cell": i_, "flag": chst[k], "position": pos, "n": nfire,
-                                "nu": nu, "got_change": got_change, "expected_change": want_change, **ctx})
+                    bad.append({"what": "apply_reaction: flagged entries (of the map in force for the call) must be skipped, unflagged moved by n*nu",
+                                "entry": k, "species": s_, "cell": i_, "flag_in_force": flags[k], "system_flag": chst[k], "position": pos,
+                                "n": nfire, "nu": nu, "got_change": float(got_change), "expected_change": want_change,
+                                "variant": variant, **ctx})
                     break
         except Exception as e:
             bad.append({"what": "apply_reaction: exception on valid arguments", "error": "%s: %s" % (type(e).__name__, e), **ctx})
